@@ -30,7 +30,7 @@ RULE = ("cases: (model kind, model parameters, call history) and (utility worklo
         " Also: arguments omitted so that the functions' own default objects are used (they are fingerprinted too), numpy-style negative index arrays, bool adjacency matrices, LGANMs with 65-75 variables, queries put to the used object and a twin in several orders.")
 ASSUMPTIONS = ["library-internal nested calls are not judged separately: their effect on caller data is visible at the outer call boundary"]
 EXHAUSTIVE = {"quick": False, "thorough": False}
-SOFT_LIMIT = {"quick": 240, "thorough": 1500}
+SOFT_LIMIT = {"quick": 1200, "thorough": 5400}      # generous wall-clock watchdogs (a loaded machine must not cut a workload short); normal run times are in the evidence
 REQUIRED_FUNCS = ["sempler/lganm.py:LGANM.sample", "sempler/anm.py:ANM.sample", "sempler/normal_distribution.py:NormalDistribution.conditional",
                   "sempler/normal_distribution.py:NormalDistribution.marginal", "sempler/normal_distribution.py:NormalDistribution.regress",
                   "sempler/normal_distribution.py:NormalDistribution.mse", "sempler/utils.py:maximally_orient", "sempler/utils.py:split_data",
